@@ -14,16 +14,21 @@ CFG = {
             "language tags, datatypes, escapes, `;`/`,` lists, multi-line N3 statements, named graphs) x prior contents incl. quoted triples; "
             "every 6th document damaged by 1-3 character edits; every 10th request `load cross <triples>`: the same triples written as "
             "N-Triples, N-Quads, Turtle and N3 by the harness' own writer, each loaded into an empty database, the four quad sets hashed. "
+            "Long statements: documents with one 64 KiB+ literal or IRI. Term content: literals and IRIs containing the line syntax's own "
+            "punctuation (`. #`, `;`, `,`, `<>`, `@`, `^^`). RDF/XML: `load xml <n> <extra> <layout> <prior>` - a generated family of n "
+            "rdf:Description resources (text and rdf:resource properties, two layouts) is loaded with parse_rdf, then the (n+extra)-resource "
+            "document into the same database, with empty / half-preloaded / unrelated prior contents, n around the 8192-triple batch and "
+            "beyond (worker threads x batch); compared by cardinality and an order-independent checksum with `prior ∪ family`. "
             "non-trivial = at least one quad in the final database; distinct = distinct request lines",
     "nontrivial": _nontrivial,
     "level_text": "Proof that chunked parsing followed by sequential encoding equals chunk-free loading for every positive chunk size, and that "
                   "sequential encoding into ANY well-formed prior dictionary yields prior quads ++ document triples (dictionary invariant by "
                   "induction over encode); N3: the per-chunk private dictionary + or_insert merge is modelled as written, correct only for an "
                   "empty target and a single chunk (proved), clash witnesses proved by evaluation.",
-    "level_note": "Partial: RDF/XML (quick-xml) is neither modelled nor exercised; thread counts are exercised (rayon pool sizes) but not "
+    "level_note": "Partial: the RDF/XML reader (quick-xml tokenisation) is not modelled - its loads are judged by the specification only (generated document families); thread counts are exercised (rayon pool sizes) but not "
                   "modelled; the specification side reads the document with the model's own tokenisers. Trusted: Lean kernel; hand-written "
                   "model Model/Load.lean + Model/Lines.lean tied to the code by the differential run and the extracted chunk sizes.",
     "trusted": ["rayon par_iter().map().collect() assumed order-preserving (its use is modelled: chunk -> map -> concat)",
                 "HashMap/HashSet modelled as association lists / lists; u32 ids as Nat"],
-    "assumptions": ["documents in the line-oriented subset; RDF/XML not covered", "ids < 2^31"],
+    "assumptions": ["documents in the line-oriented subset; RDF/XML: generated rdf:Description families only", "ids < 2^31"],
 }
